@@ -8441,30 +8441,40 @@ wp_mod_main:
 			hawk_rtx_refdownval (rtx, v);
 			if (HAWK_UNLIKELY(n <= -1)) return HAWK_NULL;
 
-			do
+			if (wp_idx == WP_PRECISION && wp[WP_PRECISION] < 0)
 			{
-				n = hawk_fmt_intmax_to_oocstr(
-					rtx->format.tmp.ptr,
-					rtx->format.tmp.len,
-					wp[wp_idx],
-					10 | HAWK_FMT_INTMAX_NOTRUNC | HAWK_FMT_INTMAX_NONULL,
-					-1,
-					HAWK_T('\0'),
-					HAWK_NULL
-				);
-				if (n <= -1)
-				{
-					/* -n is the number of characters required
-					 * including terminating null  */
-					GROW_WITH_INC (&rtx->format.tmp, -n);
-					continue;
-				}
-
-				break;
+				/* a negative precision is taken as if the precision were omitted.
+				 * drop the period already copied to the format specifier */
+				wp[WP_PRECISION] = -1;
+				hawk_ooecs_setlen (fbu, HAWK_OOECS_LEN(fbu) - 1);
 			}
-			while (1);
+			else
+			{
+				do
+				{
+					n = hawk_fmt_intmax_to_oocstr(
+						rtx->format.tmp.ptr,
+						rtx->format.tmp.len,
+						wp[wp_idx],
+						10 | HAWK_FMT_INTMAX_NOTRUNC | HAWK_FMT_INTMAX_NONULL,
+						-1,
+						HAWK_T('\0'),
+						HAWK_NULL
+					);
+					if (n <= -1)
+					{
+						/* -n is the number of characters required
+						 * including terminating null  */
+						GROW_WITH_INC (&rtx->format.tmp, -n);
+						continue;
+					}
 
-			FMT_STR(rtx->format.tmp.ptr, n);
+					break;
+				}
+				while (1);
+
+				FMT_STR(rtx->format.tmp.ptr, n);
+			}
 
 			if (!args || val) stack_arg_idx++;
 			else args = args->next;
@@ -8575,7 +8585,7 @@ wp_mod_main:
 					}
 					else
 					{
-						if (wp_idx != WP_PRECISION) /* if precision is not specified, wp_idx is at WP_WIDTH */
+						if (wp_idx != WP_PRECISION || wp[WP_PRECISION] < 0) /* if precision is not specified, wp_idx is at WP_WIDTH */
 						{
 							/* precision not specified.
 							 * FLAG_ZERO can take effect */
@@ -9321,30 +9331,40 @@ wp_mod_main:
 			hawk_rtx_refdownval (rtx, v);
 			if (HAWK_UNLIKELY(n <= -1)) return HAWK_NULL;
 
-			do
+			if (wp_idx == WP_PRECISION && wp[WP_PRECISION] < 0)
 			{
-				n = hawk_fmt_intmax_to_bcstr (
-					rtx->formatmbs.tmp.ptr,
-					rtx->formatmbs.tmp.len,
-					wp[wp_idx],
-					10 | HAWK_FMT_INTMAX_NOTRUNC | HAWK_FMT_INTMAX_NONULL,
-					-1,
-					HAWK_BT('\0'),
-					HAWK_NULL
-				);
-				if (n <= -1)
-				{
-					/* -n is the number of characters required
-					 * including terminating null  */
-					GROW_MBSBUF_WITH_INC (&rtx->formatmbs.tmp, -n);
-					continue;
-				}
-
-				break;
+				/* a negative precision is taken as if the precision were omitted.
+				 * drop the period already copied to the format specifier */
+				wp[WP_PRECISION] = -1;
+				hawk_becs_setlen (fbu, HAWK_BECS_LEN(fbu) - 1);
 			}
-			while (1);
+			else
+			{
+				do
+				{
+					n = hawk_fmt_intmax_to_bcstr (
+						rtx->formatmbs.tmp.ptr,
+						rtx->formatmbs.tmp.len,
+						wp[wp_idx],
+						10 | HAWK_FMT_INTMAX_NOTRUNC | HAWK_FMT_INTMAX_NONULL,
+						-1,
+						HAWK_BT('\0'),
+						HAWK_NULL
+					);
+					if (n <= -1)
+					{
+						/* -n is the number of characters required
+						 * including terminating null  */
+						GROW_MBSBUF_WITH_INC (&rtx->formatmbs.tmp, -n);
+						continue;
+					}
 
-			FMT_MBS(rtx->formatmbs.tmp.ptr, n);
+					break;
+				}
+				while (1);
+
+				FMT_MBS(rtx->formatmbs.tmp.ptr, n);
+			}
 
 			if (!args || val) stack_arg_idx++;
 			else args = args->next;
@@ -9456,7 +9476,7 @@ wp_mod_main:
 					}
 					else
 					{
-						if (wp_idx != WP_PRECISION) /* if precision is not set, wp_idx is at WP_WIDTH */
+						if (wp_idx != WP_PRECISION || wp[WP_PRECISION] < 0) /* if precision is not set, wp_idx is at WP_WIDTH */
 						{
 							/* precision not specified.
 							 * FLAG_ZERO can take effect */
